@@ -334,6 +334,20 @@ func (h *H) doOp(t *simrt.Task, res *OpResult, hd *Handle, op Op) {
 		} else {
 			res.Aborted = "no-ctx"
 		}
+		if res.Aborted == "" {
+			// the cancellation must be visible at once (no task has run in between) in the
+			// context of the scope itself and of every scope whose context derives from it
+			n := int(h.nHandles.Load())
+			for i := 1; i < n; i++ {
+				d := h.handle(i)
+				if d == nil || d.ScopeCtx == nil || !h.ctxDerivesFrom(d, hd) {
+					continue
+				}
+				if d.ScopeCtx.Err() == nil {
+					res.CtxNotCancelled = append(res.CtxNotCancelled, i)
+				}
+			}
+		}
 	case OpFromContext:
 		if hd.Kind == HScope {
 			s, err := godi.FromContext(hd.ScopeCtx)
@@ -343,4 +357,22 @@ func (h *H) doOp(t *simrt.Task, res *OpResult, hd *Handle, op Op) {
 			res.Aborted = "no-ctx"
 		}
 	}
+}
+
+// ctxDerivesFrom: is d's creation context hd's creation context or derived from it?
+// (d == hd; or d was created on a scope with a nil context / a context derived from that
+// scope's context, and that scope's context derives from hd's)
+//
+//go:norace
+func (h *H) ctxDerivesFrom(d, hd *Handle) bool {
+	for x := d; x != nil; {
+		if x.ID == hd.ID {
+			return true
+		}
+		if x.Parent <= 0 || !(x.CtxKind == CtxNil || x.CtxKind == CtxFromScope) {
+			return false
+		}
+		x = h.handle(x.Parent)
+	}
+	return false
 }
